@@ -24,12 +24,25 @@ TermPaths(a, b) ==
            C == {c \in CommonAncSelf(parents, a, b) : DistUp(parents, a, c) + DistUp(parents, b, c) = d}
        IN UNION { {pa \o DownPart(pb, b) : pa \in UpPaths(a, c), pb \in UpPaths(b, c)} : c \in C }
 
+(* What the crate actually does (named deviation from the documented "shortest path"): when one  *)
+(* term is an ancestor of the other, path_to_term walks the lineage (a shortest UPWARD path), even  *)
+(* if going up to a higher common ancestor and down again would be shorter.  On graphs with at     *)
+(* most 4 terms both notions coincide (TLC: LineageAgreesSmall); from 5 terms on they can differ    *)
+(* (chain 5-4-3-2-1 plus the shortcut 5-1: path_to_term(5, 2) has 3 steps, the distance is 2).     *)
+TermPathsLineage(a, b) ==
+  IF a = b THEN {<<b>>}
+  ELSE IF b \in Anc(parents, a) THEN UpPaths(a, b)
+  ELSE IF a \in Anc(parents, b) THEN {DownPart(pb, b) : pb \in UpPaths(b, a)}
+  ELSE TermPaths(a, b)
+
+LineageAgreesSmall == \A a, b \in Terms : TermPathsLineage(a, b) = TermPaths(a, b)
+
 PathPair(a, b) ==
   [ a |-> a, b |-> b,
     updist  |-> DistUp(parents, a, b),             \* distance_to_ancestor(a, b), -1 = None
     uppaths |-> UpPaths(a, b),                     \* allowed results of path_to_ancestor(a, b)
     dist    |-> Dist(parents, a, b),
-    paths   |-> TermPaths(a, b),                   \* allowed results of path_to_term(a, b)
+    paths   |-> TermPathsLineage(a, b),            \* allowed results of path_to_term(a, b) (lineage shortcut, see above)
     common      |-> Sorted(CommonAnc(parents, a, b)),       \* common_ancestor_ids (without the terms)
     commonself  |-> Sorted(CommonAncSelf(parents, a, b)),   \* all_common_ancestor_ids
     union       |-> Sorted(UnionAnc(parents, a, b)) ]       \* union_ancestor_ids / all_union_ancestor_ids
